@@ -126,6 +126,8 @@ type Ctx struct {
 	known    func(coll, key string) *KeyInfo
 	maxCas   func() uint64
 	snap     map[string]uint64       // CAS of every key at the end of the sequential setup
+	foreign  map[uint64]bool         // CAS values this driver chose itself (SetWithMeta / DeleteWithMeta)
+	topMark  func() uint64           // newest CAS of the bucket, if the driver knows one outside the operation's collection
 	onShown  func(cas uint64)        // called inside Update-style callbacks with the CAS of the version shown
 	swapDDoc func(coll string) error // replaces the design document of a collection by the other variant
 }
@@ -171,6 +173,17 @@ func (x *Ctx) resolveNewCas(op *GenOp) uint64 {
 		return x.maxCas() - 1
 	case "low":
 		return 5000 + uint64(len(ki.older))
+	case "far":
+		// a minute ahead of the clock: regular writes that follow must still be seen as newer than it
+		return x.maxCas() + 60_000_000_000
+	case "btw":
+		// just below the newest CAS of the bucket (which sits in another collection when the driver has one)
+		if x.topMark != nil {
+			if t := x.topMark(); t > 2 {
+				return t - 1
+			}
+		}
+		return x.maxCas() + (1 << 23)
 	}
 	panic("bad newcas class " + op.Newc)
 }
@@ -388,6 +401,10 @@ func (x *Ctx) Exec(c *rosmar.Collection, bucket *rosmar.Bucket, op *GenOp) (a Ar
 	case "SetWithMeta", "DeleteWithMeta":
 		newCas := x.resolveNewCas(op)
 		a.NewCas = x.tr.C(newCas)
+		if x.foreign == nil {
+			x.foreign = map[uint64]bool{}
+		}
+		x.foreign[newCas] = true
 		var xb []byte
 		if len(sets) > 0 {
 			m := map[string]json.RawMessage{}
